@@ -11,6 +11,9 @@ CHECKS = {
  'C01': dict(tech='Verus contracts (textbook sum-of-products postconditions, loop invariants) on the mechanically extracted Mul/operator impls of all 6 matrix expansions',
              text='Deductive proof (Verus, nonlinear arithmetic on) that each real Mul impl (v*M, M*v, M*M same and mixed layout, the two fold loops with invariants), scalar and element-wise operators, identity/zero/new/transposed for Mat2/3/4 in both layouts returns exactly the textbook sums of products over the layout-aware element view, for all real element values.',
              note=TB + 'Unsafe as_slice (index through Deref) is assumed here and proved by Kani under C18.', ref='5 C01'),
+ 'C03': dict(tech='Verus contracts over the layout-aware element view at(m,i,j) on the extracted constructor/index/transpose/diagonal/map/size- and layout-conversion functions of all 6 matrix expansions (generic T)',
+             text='Deductive proof (Verus) that new, (row,col) Index, transposed/transpose (mem::swap, old/final frames), diagonal, with_diagonal, broadcast_diagonal, trace, map, map2, Default, gl_should_transpose, From<other layout> and From<other size> state the same element (i,j) in the row-major and the column-major expansion; any sequence of these calls then agrees by induction over the sequence (one contract per step, identical for both layouts).',
+             note=TB + 'IndexMut<(usize,usize)> (DerefMut through unsafe as_mut_slice) and the array/slice conversions are assumed in Verus and proved by Kani on the real bodies (C18). Display is not covered (core::fmt).', ref='5 C03'),
  'C02': dict(tech='Verus contracts per element on the extracted operator impls / reductions / constructors of all 13 vector expansions',
              text='Deductive proof (Verus) on the real macro expansions of all 13 vector types that operators, fused multiply-add, reductions and constructors equal their per-element definitions for all element values (T := exact real scalar).',
              note=TB, ref='5 C02'),
